@@ -1,0 +1,19 @@
+//go:build verif
+
+// Machine-checked contracts for govc (see /verif/DESIGN.md). Comments only;
+// compiled only with the build tag "verif".
+
+package config
+
+// C18: parsing either yields a rule set or an error, never both or neither; it talks to nobody
+// (no processor call, no provider state change).
+//@ func ParseRules
+//@   props C18
+//@   logged pr
+//@   ensures (ret1 == nil) == (ret0 != nil)
+//@   ensures onc.n == old(onc.n) && onu.n == old(onu.n) && ond.n == old(ond.n) && smstore.n == old(smstore.n) && smdel.n == old(smdel.n) && smload.n == old(smload.n)
+
+//@ func parseYAML
+//@   props C18
+//@   ensures (ret1 == nil) == (ret0 != nil)
+//@   ensures onc.n == old(onc.n) && onu.n == old(onu.n) && ond.n == old(ond.n) && smstore.n == old(smstore.n) && smdel.n == old(smdel.n) && smload.n == old(smload.n)
